@@ -126,6 +126,21 @@ func genC20Idx(g *Gen) error {
 		return fmt.Errorf("FullTextIndex.cpp: SimpleGramTokenizer::NextBatch not found")
 	}
 	g.P("def src_txCppNextBatch : String := %s", leanStr(strings.Join(strings.Fields(body), " ")))
+	// … and the order it sorts the tokens of a block in (the reader binary-searches them)
+	hdr, err := os.ReadFile(g.overlayPath("engine/index/textindex/invert.h"))
+	if err != nil {
+		return err
+	}
+	less := string(hdr)
+	if i := strings.Index(less, "bool operator<(const Token& t) const"); i >= 0 {
+		less = less[i:]
+		if j := strings.Index(less, "void operator=(const Token& t)"); j >= 0 {
+			less = less[:j]
+		}
+	} else {
+		return fmt.Errorf("invert.h: Token::operator< not found")
+	}
+	g.P("def src_txCppTokenLess : String := %s", leanStr(strings.Join(strings.Fields(less), " ")))
 	for _, f := range [][3]string{
 		{sk + "bloom_filter_index.go", "BloomFilterIndexReader.ReInit", "bfReInit"},
 		{sk + "bloom_filter_index.go", "NewBloomFilterIndexReader", "bfNewBloomFilterIndexReader"},
